@@ -113,7 +113,9 @@ func (bpi *BucketPolicyItem) Validate(bucket string, iam IAMService) error {
 	for action := range bpi.Actions {
 		isObjectAction := action.IsObjectAction()
 		if isObjectAction == nil {
-			break
+			// s3:* applies to both kinds of resource: keep checking the other
+			// actions (map iteration order must not decide the outcome)
+			continue
 		}
 		if *isObjectAction && !containsObjectAction {
 			return policyErrResourceMismatch
